@@ -78,6 +78,8 @@ type (
 	CrashClassifier interface {
 		KnownCrash(tier string, seed int64, idx int, stderr string) string
 	}
+	// StackLimiter sets the stack limit of the worker processes in bytes (default 256 MB).
+	StackLimiter interface{ MaxStack() int }
 	// Paralleler bounds the number of concurrent children.
 	Paralleler interface{ Parallel(tier string) int }
 )
@@ -218,7 +220,11 @@ func workerMain(args []string) int {
 	}
 	// a runaway recursion in the library dies at 256 MB of stack instead of 1 GB (seconds instead of minutes);
 	// the deepest legitimate cases (schemas nested 2000 levels) need a few tens of MB
-	debug.SetMaxStack(256 << 20)
+	maxStack := 256 << 20
+	if sl, ok := p.(StackLimiter); ok {
+		maxStack = sl.MaxStack()
+	}
+	debug.SetMaxStack(maxStack)
 	w := &Worker{Prop: p, Tier: *tier, Seed: *seed, Replay: *replay, WorkDir: filepath.Dir(*out)}
 	kf, err := LoadKnownFindings(filepath.Join(VerifDir(), "known_findings.txt"))
 	if err != nil {
@@ -492,7 +498,10 @@ func parentMain(args []string) int {
 						alone := confirmHang(p, bin, *tier, seed, res.crashedAt, work)
 						switch {
 						case alone.hang:
-							agg.Crashes = append(agg.Crashes, rec)
+							// did not return alone either: a violation of bounded progress, unless a recorded finding
+							// explains it (the classifier sees the goroutine dump of the watchdog)
+							died = true
+							res.stderrFull = alone.stderrFull
 						case alone.crashedAt >= 0:
 							died = true
 							res.stderrFull = alone.stderrFull
